@@ -100,4 +100,34 @@ theorem iterRegion_eq_filter (c a b : Nat) (ids : Option (List Nat)) (recs : Lis
   | none => grind
   | some l => grind
 
+/-! ### all region shapes: `c`, `c:a-`, `c:a-b` -/
+
+def geOpt (lo : Option Nat) (x : Nat) : Bool := match lo with | none => true | some a => decide (a ≤ x)
+def leOpt (x : Nat) (hi : Option Nat) : Bool := match hi with | none => true | some b => decide (x ≤ b)
+
+/-- contract of `fetch`: records on `c` overlapping the (possibly open-ended) interval, in file order -/
+def fetchG (c : Nat) (lo hi : Option Nat) (recs : List HRec) : List HRec :=
+  recs.filter (fun r => decide (r.chrom = c) && leOpt r.start hi && geOpt lo r.stop)
+
+/-- `_iter_haps` with a region of any shape and an optional ID set: the overlap fetch followed by the containment
+    filter (`hap.start < region[0] or hap.end > region[1]` → skip) -/
+def iterRegionG (c : Nat) (lo hi : Option Nat) (ids : Option (List Nat)) (recs : List HRec) : List HRec :=
+  (fetchG c lo hi recs).filter (fun r =>
+    (match ids with | none => true | some l => l.contains r.id) && geOpt lo r.start && leOpt r.stop hi)
+
+theorem iterRegionG_eq_filter (c : Nat) (lo hi : Option Nat) (ids : Option (List Nat)) (recs : List HRec)
+    (hwf : ∀ r ∈ recs, r.start ≤ r.stop) :
+    iterRegionG c lo hi ids recs = recs.filter (fun r =>
+      decide (r.chrom = c) && geOpt lo r.start && leOpt r.stop hi &&
+      (match ids with | none => true | some l => l.contains r.id)) := by
+  unfold iterRegionG fetchG
+  rw [List.filter_filter]
+  apply List.filter_congr
+  intro r hr
+  have := hwf r hr
+  cases ids <;> cases lo <;> cases hi <;> simp only [geOpt, leOpt] <;> grind
+
+/-- an ID-only query: the H/R records whose ID is requested, in file order -/
+def iterIds (ids : List Nat) (recs : List HRec) : List HRec := recs.filter (fun r => ids.contains r.id)
+
 end Tabix
